@@ -216,7 +216,7 @@ def run(spec):
     rng = rng_for("C04", spec["seed"], spec["j"])
     kind, style = spec["calc"]
     for i in range(spec["sims"]):
-        s = workloads.gen(rng, spec["family"], styles=[style if kind == "soft" else "plain"], p_scripted=0.6, constraints=False)
+        s = workloads.gen(rng, spec["family"], styles=[style if kind == "soft" else "plain"], p_scripted=0.35, constraints=False)
         if kind in ("emt", "lj"):
             a = s["atoms"]
             if a["kind"] in ("gas", "mixed"):
